@@ -44,7 +44,7 @@ TBeginWrite(s, b) ==
     /\ wire' = [wire EXCEPT ![cur] = Append(@, b)]
     /\ sendCnt' = sendCnt + 1 /\ inflight' = inflight + 1
     /\ pc' = [pc EXCEPT ![s] = "written"]
-    /\ UNCHANGED <<cur, live, sel, out, handled, nextSb, peerBudget, errCnt, dropCnt>>
+    /\ UNCHANGED <<cur, live, sel, out, handled, nextSb, peerBudget, errCnt, dropCnt, lostReply>>
 Quiet == UNCHANGED <<l, inq, rxn, ended, held>>
 (* Routing a frame commutes with every log event that does not carry the same system bytes, so in-flight frames are routed
    EAGERLY -- before the next log event is consumed -- unless the behaviour commits to losing them: "held" frames (and everything
